@@ -92,4 +92,260 @@ theorem length_getD_of_shaped (g : Grid) (cols : Nat) (r : Nat) (hg : ∀ x ∈ 
   simp only [List.getD, List.getElem?_eq_getElem hr, Option.getD_some]
   exact hg _ (List.getElem_mem hr)
 
+/-! ## the aligned write: content and offset -/
+
+/-- the (possibly truncated) text that is printed -/
+def cont (avail : Int) (text : List Char) : List Char :=
+  if Int.ofNat text.length > avail then text.take avail.toNat else text
+
+theorem cont_length_le (avail : Int) (text : List Char) (h : 0 ≤ avail) :
+    Int.ofNat (cont avail text).length ≤ avail := by
+  unfold cont
+  split
+  · rw [List.length_take, Int.ofNat_eq_natCast]; omega
+  · omega
+
+/-- the column where the content starts -/
+def offs (avail col len : Int) : Align → Int
+  | .left => col
+  | .center => col + (avail - len) / 2
+  | .right => col + (avail - len)
+
+theorem offs_bounds (avail col len : Int) (a : Align) (h0 : 0 ≤ len) (h1 : len ≤ avail) :
+    col ≤ offs avail col len a ∧ offs avail col len a + len ≤ col + avail := by
+  cases a <;> simp only [offs] <;> omega
+
+theorem fw_offset_eq (cols col len : Int) (a : Align) (h0 : 0 ≤ len) (h1 : len ≤ cols - col) :
+    (if (match a with
+          | .left => col
+          | .center => col + Int.tdiv (if cols - col - len < 0 then 0 else cols - col - len) 2
+          | .right => col + (if cols - col - len < 0 then 0 else cols - col - len)) + len > cols then
+        (if cols - len < col then col else cols - len)
+      else (match a with
+          | .left => col
+          | .center => col + Int.tdiv (if cols - col - len < 0 then 0 else cols - col - len) 2
+          | .right => col + (if cols - col - len < 0 then 0 else cols - col - len)))
+      = offs (cols - col) col len a := by
+  have hr : ¬ cols - col - len < 0 := by omega
+  rw [if_neg hr, Int.tdiv_eq_ediv_of_nonneg (by omega)]
+  cases a <;> simp only [offs] <;> split <;> omega
+
+theorem host_offset_eq (cols col len : Int) (a : Align) (h0 : 0 ≤ len) (h1 : len ≤ cols - col) :
+    max col (min (cols - len) (match a with
+          | .left => col
+          | .right => col + (cols - col - len)
+          | .center => col + (cols - col - len) / 2))
+      = offs (cols - col) col len a := by
+  cases a <;> simp only [offs] <;> omega
+
+theorem getD_clearRow (g : Grid) (cols row : Int) (r : Nat) (hr : Int.ofNat r ≠ row) :
+    (Fw.clearRow g cols row).grid.getD r [] = g.getD r [] := by
+  unfold Fw.clearRow
+  split
+  · rfl
+  · simp only [getD_printAt, if_neg hr]
+
+theorem clearRow_eq (g : Grid) (cols : Nat) (row : Int) (hc : 0 < cols) (hr : 0 ≤ row)
+    (hlen : (g.getD row.toNat []).length = cols) :
+    Fw.clearRow g (Int.ofNat cols) row =
+      { grid := Host.setRow g row.toNat (blankRow cols), prints := [⟨0, row, cols⟩] } := by
+  unfold Fw.clearRow
+  have : ¬ Int.ofNat cols ≤ 0 := by rw [Int.ofNat_eq_natCast]; omega
+  rw [if_neg this, printAt_eq_setRow _ _ _ _ hr]
+  simp only [Int.ofNat_eq_natCast, Int.toNat_natCast]
+  rw [putRow_blank _ _ hlen]
+
+theorem writeAligned_eq (g : Grid) (cols col row : Int) (text : List Char) (clear : Bool) (align : Align)
+    (hcol : 0 ≤ col ∧ col < cols) :
+    Fw.writeAligned g cols col row text clear align =
+      { grid := printAt (if clear then Fw.clearRow g cols row else { grid := g }).grid
+          (offs (cols - col) col (Int.ofNat (cont (cols - col) text).length) align) row (cont (cols - col) text),
+        prints := (if clear then Fw.clearRow g cols row else { grid := g }).prints ++
+          [⟨offs (cols - col) col (Int.ofNat (cont (cols - col) text).length) align, row,
+            (cont (cols - col) text).length⟩] } := by
+  have h1 : ¬ cols ≤ 0 := by omega
+  have h2 : ¬ col < 0 := by omega
+  have h3 : ¬ col ≥ cols := by omega
+  unfold Fw.writeAligned
+  simp only [if_neg h1, if_neg h2, if_neg h3]
+  have hl := cont_length_le (cols - col) text (by omega)
+  unfold cont at hl ⊢
+  generalize (if Int.ofNat text.length > cols - col then List.take (cols - col).toNat text else text) = content
+    at hl ⊢
+  have hr : ¬ cols - col - Int.ofNat content.length < 0 := by omega
+  have hn : (0:Int) ≤ Int.ofNat content.length := by rw [Int.ofNat_eq_natCast]; omega
+  simp only [if_neg hr]
+  rw [Int.tdiv_eq_ediv_of_nonneg (by omega)]
+  cases align <;> simp only [offs]
+  · have h : ¬ col + Int.ofNat content.length > cols := by omega
+    simp only [if_neg h]
+  · have h : ¬ col + (cols - col - Int.ofNat content.length) / 2 + Int.ofNat content.length > cols := by omega
+    simp only [if_neg h]
+  · have h : ¬ col + (cols - col - Int.ofNat content.length) + Int.ofNat content.length > cols := by omega
+    simp only [if_neg h]
+
+theorem placeText_eq (l : Host.LCD) (r : Nat) (text : List Char) (align : Align) (col : Int)
+    (hcol : 0 ≤ col ∧ col < Int.ofNat l.cols) :
+    Host.placeText l r text align col =
+      (Host.setRow l.buffer r (putRow (l.buffer.getD r [])
+          (offs (Int.ofNat l.cols - col) col (Int.ofNat (cont (Int.ofNat l.cols - col) text).length) align)
+          (cont (Int.ofNat l.cols - col) text)),
+        [⟨offs (Int.ofNat l.cols - col) col (Int.ofNat (cont (Int.ofNat l.cols - col) text).length) align,
+          Int.ofNat r, (cont (Int.ofNat l.cols - col) text).length⟩]) := by
+  unfold Host.placeText
+  generalize Int.ofNat l.cols = cols at hcol ⊢
+  have ha : max 0 (cols - max 0 col) = cols - col := by omega
+  have h1 : ¬ cols - col ≤ 0 := by omega
+  simp only [ha, if_neg h1]
+  have hl := cont_length_le (cols - col) text (by omega)
+  unfold cont at hl ⊢
+  generalize (if Int.ofNat text.length > cols - col then List.take (cols - col).toNat text else text) = content
+    at hl ⊢
+  have hn : (0:Int) ≤ Int.ofNat content.length := by rw [Int.ofNat_eq_natCast]; omega
+  cases align <;> simp only [offs]
+  · have h : max col (min (cols - Int.ofNat content.length) col) = col := by omega
+    rw [h]
+  · have h : max col (min (cols - Int.ofNat content.length) (col + (cols - col - Int.ofNat content.length) / 2))
+        = col + (cols - col - Int.ofNat content.length) / 2 := by omega
+    rw [h]
+  · have h : max col (min (cols - Int.ofNat content.length) (col + (cols - col - Int.ofNat content.length)))
+        = col + (cols - col - Int.ofNat content.length) := by omega
+    rw [h]
+
+theorem placeText_off (l : Host.LCD) (r : Nat) (text : List Char) (align : Align) (col : Int)
+    (hcol : Int.ofNat l.cols ≤ col) : Host.placeText l r text align col = (l.buffer, []) := by
+  unfold Host.placeText
+  rw [Int.ofNat_eq_natCast] at hcol ⊢
+  have ha : max 0 ((l.cols : Int) - max 0 col) ≤ 0 := by omega
+  simp only [if_pos ha]
+
+theorem toNat_lt_of_validRow (row : Int) (n : Nat) (h : 0 ≤ row ∧ row < Int.ofNat n) : row.toNat < n := by
+  rw [Int.ofNat_eq_natCast] at h; omega
+
+/-- host `write` on a shaped buffer, in-range row and column: same cells as the firmware template -/
+theorem write_core (l : Host.LCD) (col row : Int) (text : List Char) (clear : Bool) (align : Align)
+    (hlen : l.buffer.length = l.rows) (hsh : ∀ x ∈ l.buffer, x.length = l.cols)
+    (hrow : 0 ≤ row ∧ row < Int.ofNat l.rows) (hcol : 0 ≤ col ∧ col < Int.ofNat l.cols) :
+    ∃ l' ps, Host.write l col row text clear align = .ok (l', ps) ∧ l'.cols = l.cols ∧ l'.rows = l.rows ∧
+      l'.buffer = (Fw.writeAligned l.buffer (Int.ofNat l.cols) col row text clear align).grid ∧
+      l'.buffer.length = l.rows ∧ (∀ x ∈ l'.buffer, x.length = l.cols) ∧
+      ps = [⟨offs (Int.ofNat l.cols - col) col (Int.ofNat (cont (Int.ofNat l.cols - col) text).length) align,
+              row, (cont (Int.ofNat l.cols - col) text).length⟩] := by
+  have hr : row.toNat < l.buffer.length := by rw [hlen]; exact toNat_lt_of_validRow _ _ hrow
+  have hrr : Int.ofNat row.toNat = row := by rw [Int.ofNat_eq_natCast]; omega
+  have hc : 0 < l.cols := by rw [Int.ofNat_eq_natCast] at hcol; omega
+  unfold Host.write Host.validRow
+  rw [if_pos hrow]
+  simp only []
+  cases clear
+  · simp only [Bool.false_eq_true, if_false]
+    rw [placeText_eq l _ _ _ _ hcol]
+    refine ⟨_, _, rfl, rfl, rfl, ?_, ?_, ?_, ?_⟩
+    · rw [writeAligned_eq _ _ _ _ _ _ _ hcol]
+      simp only [Bool.false_eq_true, if_false]
+      rw [printAt_eq_setRow _ _ _ _ hrow.1]
+    · simp only [length_setRow, hlen]
+    · apply shaped_setRow _ _ _ _ hsh
+      rw [length_putRow]
+      exact length_getD_of_shaped _ _ _ hsh hr
+    · rw [hrr]
+  · simp only [if_true]
+    have hsh1 : ∀ x ∈ Host.setRow l.buffer row.toNat (blankRow l.cols), x.length = l.cols :=
+      shaped_setRow _ _ _ _ hsh (by simp [blankRow])
+    have hr1 : row.toNat < (Host.setRow l.buffer row.toNat (blankRow l.cols)).length := by
+      rw [length_setRow]; exact hr
+    rw [placeText_eq { l with buffer := Host.setRow l.buffer row.toNat (blankRow l.cols) } _ _ _ _ hcol]
+    refine ⟨_, _, rfl, rfl, rfl, ?_, ?_, ?_, ?_⟩
+    · rw [writeAligned_eq _ _ _ _ _ _ _ hcol]
+      simp only [if_true]
+      rw [clearRow_eq _ _ _ hc hrow.1 (length_getD_of_shaped _ _ _ hsh hr)]
+      simp only []
+      rw [printAt_eq_setRow _ _ _ _ hrow.1]
+    · simp only [length_setRow, hlen]
+    · apply shaped_setRow _ _ _ _ hsh1
+      rw [length_putRow]
+      exact length_getD_of_shaped _ _ _ hsh1 hr1
+    · rw [hrr]
+
+/-- host `write` for any non-negative column: prints stay in the row, the buffer keeps its shape -/
+theorem write_shape_prints (l : Host.LCD) (col row : Int) (text : List Char) (clear : Bool) (align : Align)
+    (l' : Host.LCD) (ps : List Print) (hcol : 0 ≤ col)
+    (hlen : l.buffer.length = l.rows) (hsh : ∀ x ∈ l.buffer, x.length = l.cols)
+    (h : Host.write l col row text clear align = .ok (l', ps)) :
+    (∀ p ∈ ps, (0 ≤ p.col ∧ p.col + Int.ofNat p.len ≤ Int.ofNat l.cols) ∧ p.row = row) ∧
+      l'.buffer.length = l.rows ∧ ∀ x ∈ l'.buffer, x.length = l.cols := by
+  by_cases hrow : 0 ≤ row ∧ row < Int.ofNat l.rows
+  · by_cases hc : col < Int.ofNat l.cols
+    · obtain ⟨l'', ps', e, _, _, _, h1, h2, h3⟩ := write_core l col row text clear align hlen hsh hrow ⟨hcol, hc⟩
+      rw [e] at h
+      cases h
+      refine ⟨?_, h1, h2⟩
+      intro p hp
+      rw [h3, List.mem_singleton] at hp
+      subst hp
+      have hl := cont_length_le (Int.ofNat l.cols - col) text (by omega)
+      have hb := offs_bounds (Int.ofNat l.cols - col) col (Int.ofNat (cont (Int.ofNat l.cols - col) text).length)
+        align (by rw [Int.ofNat_eq_natCast]; omega) hl
+      refine ⟨⟨Int.le_trans hcol hb.1, ?_⟩, rfl⟩
+      show offs _ _ _ _ + Int.ofNat (cont _ _).length ≤ _
+      omega
+    · unfold Host.write Host.validRow at h
+      rw [if_pos hrow] at h
+      simp only [] at h
+      rw [placeText_off _ _ _ _ _ (by cases clear <;> exact Int.not_lt.mp hc)] at h
+      cases h
+      refine ⟨by simp, ?_, ?_⟩
+      · cases clear <;> simp [hlen]
+      · cases clear
+        · simpa using hsh
+        · simp only [if_true]
+          exact shaped_setRow _ _ _ _ hsh (by simp [blankRow])
+  · unfold Host.write Host.validRow at h
+    rw [if_neg hrow] at h
+    cases h
+
+theorem line_eq_write (l : Host.LCD) (row : Int) (text : List Char) (align : Align) (clear : Bool) :
+    Host.line l row text align clear = Host.write l 0 row text clear align := rfl
+
+/-- one optional `line` of `message` -/
+theorem message_step (l : Host.LCD) (o : Option (List Char)) (row : Int) (a : Align) (clear : Bool)
+    (hlen : l.buffer.length = l.rows) (hsh : ∀ x ∈ l.buffer, x.length = l.cols) (hc : 0 < l.cols)
+    (hrow : 0 ≤ row ∧ row < Int.ofNat l.rows) :
+    ∃ (l' : Host.LCD) (ps : List Print), (match o with
+        | some t => Host.line l row t a clear
+        | none => (pure (l, []) : Except Exc (Host.LCD × List Print))) = .ok (l', ps) ∧
+      l'.cols = l.cols ∧ l'.rows = l.rows ∧
+      l'.buffer = (match o with
+        | some t => (Fw.writeAligned l.buffer (Int.ofNat l.cols) 0 row t clear a).grid
+        | none => l.buffer) ∧
+      l'.buffer.length = l.rows ∧ (∀ x ∈ l'.buffer, x.length = l.cols) := by
+  cases o with
+  | none => exact ⟨l, [], rfl, rfl, rfl, rfl, hlen, hsh⟩
+  | some t =>
+    have hcol : (0:Int) ≤ 0 ∧ (0:Int) < Int.ofNat l.cols := by rw [Int.ofNat_eq_natCast]; omega
+    obtain ⟨l', ps, e, h1, h2, h3, h4, h5, _⟩ := write_core l 0 row t clear a hlen hsh hrow hcol
+    exact ⟨l', ps, e, h1, h2, h3, h4, h5⟩
+
+theorem message_core (l : Host.LCD) (top bottom : Option (List Char)) (ta ba : Align) (clear : Bool)
+    (hlen : l.buffer.length = l.rows) (hsh : ∀ x ∈ l.buffer, x.length = l.cols) (hc : 0 < l.cols)
+    (hrows : 2 ≤ l.rows) :
+    ∃ l' ps, Host.message l top bottom ta ba clear = .ok (l', ps) ∧ l'.cols = l.cols ∧ l'.rows = l.rows ∧
+      l'.buffer = (
+        let g1 := match top with
+          | some t => (Fw.writeAligned l.buffer (Int.ofNat l.cols) 0 0 t clear ta).grid
+          | none => l.buffer
+        match bottom with
+          | some b => (Fw.writeAligned g1 (Int.ofNat l.cols) 0 1 b clear ba).grid
+          | none => g1) ∧
+      l'.buffer.length = l.rows ∧ (∀ x ∈ l'.buffer, x.length = l.cols) := by
+  have hr0 : (0:Int) ≤ 0 ∧ (0:Int) < Int.ofNat l.rows := by rw [Int.ofNat_eq_natCast]; omega
+  obtain ⟨l1, p1, e1, c1, r1, b1, n1, s1⟩ := message_step l top 0 ta clear hlen hsh hc hr0
+  have hr1 : (0:Int) ≤ 1 ∧ (1:Int) < Int.ofNat l1.rows := by rw [r1, Int.ofNat_eq_natCast]; omega
+  obtain ⟨l2, p2, e2, c2, r2, b2, n2, s2⟩ :=
+    message_step l1 bottom 1 ba clear (by rw [n1, r1]) (by rw [c1]; exact s1) (by rw [c1]; exact hc) hr1
+  unfold Host.message
+  cases top <;> cases bottom <;> simp only [bind, Except.bind, pure, Except.pure] at e1 e2 b1 b2 ⊢
+  all_goals trace_state
+  all_goals sorry
+
 end Reduino.Lemmas.C17
